@@ -168,7 +168,9 @@ def cases(ctx, budget):
     #     episode and per segment - must return the same nodelist
     qtexts_d = ["$.*", "$[*]", "$.*.*", "$[*, *]", "$['a', *]", "$[?@]", "$[?@ != 1]", "$[?@.a]", "$.*[?@ != 1]", "$..*", "$..[?@ != 1]", "$..[*, 0]", "$..*.*",
                 "$.a.*", "$.*.a", "$[?count(@.*) > 0]", "$[?@.*]", "$[?@..a].*", "$..a.*", "$.*..*", "$[*][?@ != 2]", "$..[?@.a]", "$[?length(@) > 0].*",
-                "$[*]..[*]", "$['a', 'b']..[*]", "$.a[*]..[0]"]
+                "$[*]..[*]", "$['a', 'b']..[*]", "$.a[*]..[0]",
+                # queries nested in filters that make random choices of their own, to depth 2, relative and absolute, several in one expression
+                "$[?count(@..*) > 1]", "$[?@.* && @..a]", "$[?count($.*) > 1]", "$[?@[?@.*]]", "$..[?count(@.*) > 1]", "$[?@.*.*].*", "$[?value(@[?@.*]) == 1, ?@.*]"]
     dvals = [{"a": 1, "b": 2, "c": 3}, {"a": {"x": 1, "y": 2}, "b": {"z": 3}}, {"a": [1, 2], "b": {"a": 1}}, [{"a": 1, "b": 2}, {"a": 3}], [3, 1, 2], {"a": {"a": 1, "b": 2}},
              {"a": {}, "b": [], "c": 1}, [[1, 2], {"a": 1, "b": 2}], {"a": {"a": {"a": 1, "b": 2}}, "b": 1}, {"a": 1}, [], {}, 7,
              # two input nodes of a descendant segment, each with containers below it: their results must not interleave
@@ -186,17 +188,24 @@ def cases(ctx, budget):
                 with Episodes(s, qnd) as ep:
                     try: out = [0, tuple(nd.location for nd in qnd.find(v))]
                     except jp.JSONPathRecursionError: out = [1, 6]
-                return out + [ep.supply()]
+                return out + [ep.supply(), ep.nested_supply()]
             for script, out in chooser.enumerate_outcomes(rund, cap):
                 cnt += 1
                 if out[0] == 0:
                     results.add(out[1])
-                    if out[2] is not None and (cnt <= 60 or rng.random() < 0.02):
-                        sup = out[2]
-                        enc = [0] + wire.enc_list(lambda l: wire.enc_list(wire.enc_key, list(l)), list(out[1]))
-                        yield Case({"value": v, "query": qt, "script": script, "supply": sup},
-                                   [23, 100] + regd + gen.enc_rxtable([]) + wire.enc_list(lambda x: [len(x)] + list(x), sup) + gen.enc_segs(ast) + wire.enc_json(v), enc, None, None,
-                                   len(script) > 0, "query-script")
+                    if out[2] is not None and out[3] is not None and (cnt <= 60 or rng.random() < 0.02):
+                        sup, nsup = out[2], out[3]
+                        # the model with the episodes inside filter expressions too (Model/NdEval2.v): the same nodelist, and every script
+                        # of either supply used up - it spends as many episodes as the library did, in the places the library did
+                        enc = [0] + wire.enc_list(lambda l: wire.enc_list(wire.enc_key, list(l)), list(out[1])) + [0, 0]
+                        encs = lambda sp: wire.enc_list(lambda x: [len(x)] + list(x), sp)
+                        yield Case({"value": v, "query": qt, "script": script, "supply": sup, "nested_supply": nsup},
+                                   [24, 100] + regd + gen.enc_rxtable([]) + encs(sup) + encs(nsup) + gen.enc_segs(ast) + wire.enc_json(v), enc, None, None,
+                                   len(script) > 0, "query-script" if not nsup else "query-script-nested")
+                        if cnt <= 20:
+                            yield Case({"value": v, "query": qt, "script": script, "supply": sup},
+                                       [23, 100] + regd + gen.enc_rxtable([]) + encs(sup) + gen.enc_segs(ast) + wire.enc_json(v), enc[:-2], None, None,
+                                       len(script) > 0, "query-script-own")
             if cnt >= cap: full = False
 
             def chkd(impl_out, spec, results=results, full=full):
@@ -268,88 +277,126 @@ def dec_loclists(spec):
     return out
 
 
+class QRun:
+    """one evaluation of a query: the top-level find(), or one FilterQuery.evaluate() of a query nested in a filter.  items: [key, payload] with
+    payload a script (one random episode of this query's own selectors / traversals) or a QRun (a nested evaluation started by one of this
+    query's filter selectors); key = (segment index, input-node group, 0 traversal / 1 selector, sequence number)."""
+    def __init__(self, segments):
+        self.segments = segments; self.items = []; self.groups = {}; self.visits = {}; self.children = {}
+
+
 class Episodes:
     """random.randrange / random.shuffle driven by a chooser.Script, recording which random EPISODE every choice belongs to: one episode per
     random.shuffle of a selector (WildcardSelector / FilterSelector.resolve on an object), one per _nondeterministic_visit generator (its
-    randrange calls and the shuffles of its _nondeterministic_children).  Episodes are attributed, through the callers' frames, to the segment of
-    the top-level query they serve and to the input node of that segment being processed; those of queries nested in filters are dropped.
+    randrange calls and the shuffles of its _nondeterministic_children).  Episodes are attributed, through the callers' frames, to the query
+    evaluation they belong to (the top-level find(), or a FilterQuery.evaluate() call nested in it to any depth), to the segment of that query
+    they serve and to the input node of that segment being processed.
     The generator pipeline runs segment after segment for each node, the model segment by segment: per segment both process the input nodes in
-    the same order, and for one input node of a descendant segment the model runs the traversal first.  supply() reorders accordingly; it is
-    None when the frames do not have the expected shape (then only the outcome sets are compared)."""
+    the same order, and for one input node of a descendant segment the model runs the traversal first; the evaluations nested in one filter
+    selector follow its shuffle, member after member.  supply() is the list of the top-level query's own episodes in the model's order,
+    nested_supply() that of all episodes inside filter expressions (Model/NdEval2.v); both are None when the frames do not have the expected
+    shape (then only the outcome sets are compared)."""
     def __init__(self, script, query):
-        self.s, self.q = script, query
-        self.eps = []; self.bykey = {}; self.keep = []; self.groups = {}; self.ok = True
+        self.s = script
+        self.top = QRun(query.segments)
+        self.keep = []; self.ok = True; self.seq = 0
 
-    def seg_of_segment(self, seg):
-        for i, x in enumerate(self.q.segments):
+    @staticmethod
+    def seg_of_segment(qr, seg):
+        for i, x in enumerate(qr.segments):
             if x is seg: return i
         return None
 
-    def seg_of_selector(self, sel):
-        for i, x in enumerate(self.q.segments):
+    @staticmethod
+    def seg_of_selector(qr, sel):
+        for i, x in enumerate(qr.segments):
             if any(y is sel for y in x.selectors): return i
         return None
 
-    def group(self, segidx, obj):
+    def group(self, qr, segidx, obj):
         if obj is None: self.ok = False
         self.keep.append(obj)
-        g = self.groups.setdefault(segidx, {})
+        g = qr.groups.setdefault(segidx, {})
         return g.setdefault(id(obj), len(g))
 
-    def owner(self, f):
-        """the nearest enclosing frame that is the traversal generator, or a method of a selector / segment object"""
-        import jsonpath_rfc9535.selectors as S, jsonpath_rfc9535.segments as G
-        depth = 0
-        while f is not None and depth < 16:
-            if f.f_code.co_name == "_nondeterministic_visit": return ("visit", f, None)
+    def levels(self, f):
+        """the frames of the library between the random call and the top, innermost first, cut into levels at FilterQuery.evaluate frames:
+        [(frames of the innermost query evaluation), boundary frame, (frames of the enclosing one), boundary frame, ...]"""
+        import jsonpath_rfc9535.selectors as S, jsonpath_rfc9535.segments as G, jsonpath_rfc9535.filter_expressions as F
+        levels = [[]]; bounds = []
+        while f is not None:
             slf = f.f_locals.get("self")
-            if isinstance(slf, S.JSONPathSelector): return ("sel", f, slf)
-            if isinstance(slf, G.JSONPathSegment): return ("seg", f, slf)
-            f = f.f_back; depth += 1
-        return None
+            if f.f_code.co_name == "_nondeterministic_visit": levels[-1].append(("visit", f, slf))
+            elif isinstance(slf, F.FilterQuery) and f.f_code.co_name == "evaluate":
+                bounds.append(f); levels.append([])
+            elif isinstance(slf, S.JSONPathSelector): levels[-1].append(("sel", f, slf))
+            elif isinstance(slf, G.JSONPathSegment): levels[-1].append(("seg", f, slf))
+            f = f.f_back
+        return levels, bounds
 
-    def visit_episode(self, f):
-        k = id(f)
-        if k not in self.bykey:
-            self.keep.append(f)                                     # keeps the frame alive: its id is never reused
-            si = self.seg_of_segment(f.f_locals.get("self"))
-            e = [si, self.group(si, f.f_locals.get("root")) if si is not None else 0, 0, []]
-            self.bykey[k] = e; self.eps.append(e)
-        return self.bykey[k]
-
-    def sel_episode(self, f, sel):
-        si = self.seg_of_selector(sel)
-        if si is None: return [None, 0, 1, []]                      # a selector of a query nested in a filter
-        # the input node of the segment this selector belongs to: a local of the enclosing segment method
-        g = f.f_back; node = None; depth = 0
-        while g is not None and depth < 8:
-            if g.f_locals.get("self") is self.q.segments[si]:
+    def place(self, qr, level):
+        """key of the episode / nested evaluation owned by the innermost selector or traversal frame of this level, in the query run qr"""
+        if not level or level[0][0] == "seg": return None
+        kind, f, slf = level[0]
+        if kind == "visit":
+            si = self.seg_of_segment(qr, slf)
+            if si is None: return None
+            return ("visit", f, (si, self.group(qr, si, f.f_locals.get("root")), 0, 0))
+        si = self.seg_of_selector(qr, slf)
+        if si is None: return None
+        node = None
+        for k, g, s2 in level[1:]:
+            if k == "seg" and s2 is qr.segments[si]:
                 node = g.f_locals.get("node"); break
-            g = g.f_back; depth += 1
-        e = [si, self.group(si, node), 1, []]; self.eps.append(e)
-        return e
+        self.seq += 1
+        return ("sel", f, (si, self.group(qr, si, node), 1, self.seq))
+
+    def episode(self, f):
+        """the script list the random call made from frame f appends to"""
+        levels, bounds = self.levels(f)
+        qr = self.top
+        # from the outermost level inwards: each enclosing level owns the nested evaluation below it
+        for li in range(len(levels) - 1, 0, -1):
+            b = bounds[li - 1]
+            child = qr.children.get(id(b))
+            if child is None:
+                pl = self.place(qr, levels[li])
+                if pl is None or pl[0] != "sel":
+                    self.ok = False; return []
+                self.keep.append(b)                                 # keeps the frame alive: its id is never reused
+                q = getattr(b.f_locals.get("self"), "query", None)
+                if q is None:
+                    self.ok = False; return []
+                child = QRun(q.segments)
+                qr.children[id(b)] = child; qr.items.append([pl[2], child])
+            qr = child
+        pl = self.place(qr, levels[0])
+        if pl is None:
+            self.ok = False; return []
+        if pl[0] == "visit":
+            k = id(pl[1])
+            if k not in qr.visits:
+                self.keep.append(pl[1])
+                e = [pl[2], []]; qr.visits[k] = e; qr.items.append(e)
+            return qr.visits[k][1]
+        e = [pl[2], []]; qr.items.append(e)
+        return e[1]
 
     def __enter__(self):
         import sys, math, random
         self.saved = (random.randrange, random.shuffle)
         s = self.s
 
-        def episode():
-            o = self.owner(sys._getframe(2))
-            if o is None or o[0] == "seg":
-                self.ok = False; return [None, 0, 0, []]
-            return self.visit_episode(o[1]) if o[0] == "visit" else self.sel_episode(o[1], o[2])
-
         def randrange(n):
-            e = episode()
-            v = s.take(n); e[3].append(s.trace[-1][0])
+            e = self.episode(sys._getframe(1))
+            v = s.take(n); e.append(s.trace[-1][0])
             return v
 
         def shuffle(x):
-            e = episode()
+            e = self.episode(sys._getframe(1))
             n = len(x)
             if n < 2: return
-            idx = s.take(math.factorial(n)); e[3].append(s.trace[-1][0])
+            idx = s.take(math.factorial(n)); e.append(s.trace[-1][0])
             pool = list(x); out = []
             for k in range(n, 0, -1):
                 j = idx % k; idx //= k
@@ -362,9 +409,27 @@ class Episodes:
         import random
         random.randrange, random.shuffle = self.saved
 
+    @staticmethod
+    def ordered(qr):
+        return sorted(qr.items, key=lambda e: e[0])
+
+    def flat(self, qr):
+        out = []
+        for key, payload in self.ordered(qr):
+            if isinstance(payload, QRun): out.extend(self.flat(payload))
+            else: out.append(payload)
+        return out
+
     def supply(self):
         if not self.ok: return None
-        return [e[3] for e in sorted([e for e in self.eps if e[0] is not None], key=lambda e: (e[0], e[1], e[2]))]
+        return [p for k, p in self.ordered(self.top) if not isinstance(p, QRun)]
+
+    def nested_supply(self):
+        if not self.ok: return None
+        out = []
+        for k, p in self.ordered(self.top):
+            if isinstance(p, QRun): out.extend(self.flat(p))
+        return out
 
 
 def skip_json(a, pos):
